@@ -33,6 +33,7 @@ type Prog struct {
 	cg     *callgraph.Graph
 	medges map[*ssa.Function][]*ssa.Function
 	tws    []textWriteSite
+	mglob  map[*ssa.Global]string
 	stab   [][2]string
 	vset   *variadicSet
 	proles *PatchRoles
